@@ -473,6 +473,7 @@ func Scenarios(thorough bool) []Scenario {
 		{Name: "10-gc-stored-R||Sother", Pre: []Step{R("m0", "Z", 1)}, Threads: [][]Step{{R("m1", "Z", 1)}, {S("X")}}, Bound: 100},
 		{Name: "11-tick||S||R", Threads: [][]Step{{{Kind: "tick"}}, {S("X")}, {R("m1", "X", 1)}}, Bound: b3},
 		{Name: "12-tick||S;Sother", Pre: []Step{R("m0", "Z", 1)}, Threads: [][]Step{{{Kind: "tick"}}, {S("X"), S("Y")}}, Bound: 100},
+		{Name: "15-known-sender-R||R", Pre: []Step{R("m0", "Z", 1)}, Threads: [][]Step{{R("m1", "X", 1)}, {R("m2", "Y", 1)}}, Bound: 2},
 		{Name: "14-stored-S||S", Pre: []Step{R("m0", "X", 1), R("m1", "X", 2)}, Threads: [][]Step{{S("X")}, {S("X"), R("m2", "X", 1)}}, Bound: 100},
 		{Name: "8-stored-R||S", Pre: []Step{R("m0", "X", 1)}, Threads: [][]Step{{R("m1", "X", 1)}, {S("X")}}, Bound: 100},
 		{Name: "9-stored-RR||S", Pre: []Step{R("m0", "X", 1)}, Threads: [][]Step{{R("m1", "X", 1), R("m2", "X", 1)}, {S("X")}}, Bound: 100},
